@@ -393,7 +393,7 @@ def substateLocs : Sp → List (Nat × List Nat)
 def findSub (m : List (Nat × List Nat)) (nm : Nat) : Option (List Nat) :=
   m.foldl (fun acc e => if e.1 = nm then some e.2 else acc) none
 
-/-- the top-level state seen by `getSubstateAtLocation` (a top-level wrapper is *not* unwrapped by
+/- the top-level state seen by `getSubstateAtLocation` (a top-level wrapper is *not* unwrapped by
 `StateSpace::getSubstateAtLocation`; the harness only uses the names overload on unwrapped spaces) -/
 mutual
 def St.sub : St → List Nat → Option St
@@ -455,65 +455,68 @@ def St.children : St → List St
   | .comp cs => cs
   | _ => []
 
-mutual
-/-- the recursive `copyStateData(destS, dest, sourceS, source)` -/
-def csd : Sp → St → Sp → St → St × CopyRes
-  | destS, dest, srcS, src =>
-    if destS.name = srcS.name then (copyState destS dest src, .all)
-    else
-      -- if "to" state is compound
-      let r1 : St × CopyRes × Bool :=
-        match destS with
-        | .compound _ dcs =>
-          match findChild dcs srcS.name 0 with
-          | some i =>
-            let ds := dest.children
-            (.comp (ds.set i (copyState (dcs.getD i destS) (ds.getD i dest) src)), .all, true)
-          | none =>
-            let r := csdDest dcs dest.children srcS src
-            (.comp r.1, r.2.1, r.2.2)
-        | _ => (dest, .none, false)
-      if r1.2.2 then (r1.1, .all)
-      else
-        match srcS with
-        | .compound _ scs =>
-          let r := csdSrc destS r1.1 scs src.children
-          let res := if r.2.2 then CopyRes.some else r1.2.1
-          (r.1, if r.2.1 = scs.length then .all else res)
-        | _ => (r1.1, r1.2.1)
-termination_by destS _ srcS _ => sizeOf destS + sizeOf srcS
-decreasing_by
-  all_goals simp_wf
-  all_goals omega
+/-- the common head of `copyStateData(destS, dest, sourceS, source)` for a destination space given by its
+name `dn`, its `copyState` (`cp dest src`) and its "if destS is compound" block `blk` (which returns the new
+dest, the running `result` and whether it returned `ALL_DATA_COPIED`); `k` is the "if sourceS is compound"
+tail. -/
+def csdHead (dn : Nat) (cp : St → St → St) (blk : Sp → St → St → St × CopyRes × Bool)
+    (srcS : Sp) (src dest : St) (k : St → CopyRes → St × CopyRes) : St × CopyRes :=
+  if dn = srcS.name then (cp dest src, .all)
+  else
+    let r1 := blk srcS src dest
+    if r1.2.2 then (r1.1, .all) else k r1.1 r1.2.1
 
-/-- loop over the components of `destS` with the whole source; returns the new components, the running
-`result` and whether the loop returned `ALL_DATA_COPIED` early -/
-def csdDest : List Sp → List St → Sp → St → List St × CopyRes × Bool
-  | c :: cs, d :: ds, srcS, src =>
-    let r := csd c d srcS src
+mutual
+/-- `copyStateData` for a fixed destination space, by recursion over the source space
+(`copyStateData(destS, dest, compoundSourceS->getSubspace(i), compoundSource->components[i])`). -/
+def csdS (dn : Nat) (cp : St → St → St) (blk : Sp → St → St → St × CopyRes × Bool) :
+    Sp → St → St → St × CopyRes
+  | .compound nm scs, src, dest =>
+    csdHead dn cp blk (.compound nm scs) src dest (fun d1 res1 =>
+      let r := csdSL dn cp blk scs src.children d1
+      (r.1, if r.2.1 = scs.length then .all else if r.2.2 then .some else res1))
+  | .real nm n, src, dest => csdHead dn cp blk (.real nm n) src dest (fun d1 res1 => (d1, res1))
+  | .so2 nm, src, dest => csdHead dn cp blk (.so2 nm) src dest (fun d1 res1 => (d1, res1))
+  | .so3 nm, src, dest => csdHead dn cp blk (.so3 nm) src dest (fun d1 res1 => (d1, res1))
+  | .time nm, src, dest => csdHead dn cp blk (.time nm) src dest (fun d1 res1 => (d1, res1))
+  | .discrete nm, src, dest => csdHead dn cp blk (.discrete nm) src dest (fun d1 res1 => (d1, res1))
+  | .wrapper nm s, src, dest => csdHead dn cp blk (.wrapper nm s) src dest (fun d1 res1 => (d1, res1))
+/-- the loop over the source's components: new dest, `copiedComponents`, "some res != NO_DATA_COPIED" -/
+def csdSL (dn : Nat) (cp : St → St → St) (blk : Sp → St → St → St × CopyRes × Bool) :
+    List Sp → List St → St → St × Nat × Bool
+  | c :: cs, s :: ss, dest =>
+    let r := csdS dn cp blk c s dest
+    let rest := csdSL dn cp blk cs ss r.1
+    (rest.1, (if r.2 = .all then 1 else 0) + rest.2.1, (r.2 != .none) || rest.2.2)
+  | _, _, dest => (dest, 0, false)
+end
+
+mutual
+/-- the "if destS is compound" block of `copyStateData`, by recursion over the destination space -/
+def csdBlk : Sp → Sp → St → St → St × CopyRes × Bool
+  | .compound _ dcs => fun srcS src dest =>
+    match findChild dcs srcS.name 0 with
+    | some i =>
+      let ds := dest.children
+      (.comp (ds.set i (copyState (dcs.getD i default) (ds.getD i default) src)), .all, true)
+    | none =>
+      let r := csdDL dcs srcS src dest.children
+      (.comp r.1, r.2.1, r.2.2)
+  | _ => fun _ _ dest => (dest, .none, false)
+/-- the loop over the destination's components with the whole source -/
+def csdDL : List Sp → Sp → St → List St → List St × CopyRes × Bool
+  | c :: cs, srcS, src, d :: ds =>
+    let r := csdS c.name (copyState c) (csdBlk c) srcS src d
     if r.2 = .all then (r.1 :: ds, .all, true)
     else
-      let rest := csdDest cs ds srcS src
-      (r.1 :: rest.1, (if r.2 ≠ .none then CopyRes.some else rest.2.1) , rest.2.2)
-  | _, ds, _, _ => (ds, .none, false)
-termination_by dcs _ srcS _ => sizeOf dcs + sizeOf srcS
-decreasing_by
-  all_goals simp_wf
-  all_goals omega
-
-/-- loop over the components of `sourceS`; returns the new dest, `copiedComponents`, and whether any
-component copied something -/
-def csdSrc : Sp → St → List Sp → List St → St × Nat × Bool
-  | destS, dest, c :: cs, s :: ss =>
-    let r := csd destS dest c s
-    let rest := csdSrc destS r.1 cs ss
-    (rest.1, (if r.2 = .all then 1 else 0) + rest.2.1, (r.2 ≠ .none) || rest.2.2)
-  | _, dest, _, _ => (dest, 0, false)
-termination_by destS _ scs _ => sizeOf destS + sizeOf scs
-decreasing_by
-  all_goals simp_wf
-  all_goals omega
+      let rest := csdDL cs srcS src ds
+      (r.1 :: rest.1, (if r.2 != .none then CopyRes.some else rest.2.1), rest.2.2)
+  | _, _, _, ds => (ds, .none, false)
 end
+
+/-- the recursive `copyStateData(destS, dest, sourceS, source)` -/
+def csd (destS : Sp) (dest : St) (srcS : Sp) (src : St) : St × CopyRes :=
+  csdS destS.name (copyState destS) (csdBlk destS) srcS src dest
 
 /-! ### signature -/
 
